@@ -10,41 +10,41 @@ import (
 )
 
 type munit struct {
-	w        wunit   // the write that produced it
-	k        int     // index inside a multi-AU audio write
-	dts      int64   // in the track's clock rate, as written (no offset)
+	w        wunit // the write that produced it
+	k        int   // index inside a multi-AU audio write
+	dts      int64 // in the track's clock rate, as written (no offset)
 	ra       bool
 	data     [][]byte // NALUs / OBUs / [frame] for video, [au] for audio
-	dur      int64   // fMP4: duration = next.dts - this.dts (set when emitted)
-	writeIdx int     // index of the Write call that *emitted* it (when it became part of the stream)
+	dur      int64    // fMP4: duration = next.dts - this.dts (set when emitted)
+	writeIdx int      // index of the Write call that *emitted* it (when it became part of the stream)
 }
 
 type mcut struct {
-	atWrite int     // index of the Write call that caused the cut
-	counts  []int   // per track: number of emitted units that belong to segments before the cut
-	forced  bool    // caused by a parameter change
-	timeNum int64   // start time of the new segment in ticks of the leading track (with the fMP4 offset, if any)
-	either  bool    // the elapsed time is within 2 ns of SegmentMinDuration and not exactly representable in ns: both outcomes are accepted
-	prevStart int64
+	atWrite    int   // index of the Write call that caused the cut
+	counts     []int // per track: number of emitted units that belong to segments before the cut
+	forced     bool  // caused by a parameter change
+	timeNum    int64 // start time of the new segment in ticks of the leading track (with the fMP4 offset, if any)
+	either     bool  // the elapsed time is within 2 ns of SegmentMinDuration and not exactly representable in ns: both outcomes are accepted
+	prevStart  int64
 	prevWrites int
 }
 
 type emodel struct {
-	cfg      muxCfg
-	lead     int
-	fmp4     bool
-	curParam int   // parameter set the writer uses (mirrors muxInst.vparam)
-	codecPar int   // parameter set the muxer's codec object holds
-	pending  bool
-	seenRA   []bool
-	next     []*munit // fMP4 look-ahead
-	emitted  [][]*munit
-	segOpen  bool
-	segStart int64 // ticks of the leading track (offset included for fMP4)
-	firstStart int64
-	writesInSeg int // audio-only MPEG-TS
-	cuts     []mcut
-	nwrites  int
+	cfg           muxCfg
+	lead          int
+	fmp4          bool
+	curParam      int // parameter set the writer uses (mirrors muxInst.vparam)
+	codecPar      int // parameter set the muxer's codec object holds
+	pending       bool
+	seenRA        []bool
+	next          []*munit // fMP4 look-ahead
+	emitted       [][]*munit
+	segOpen       bool
+	segStart      int64 // ticks of the leading track (offset included for fMP4)
+	firstStart    int64
+	writesInSeg   int // audio-only MPEG-TS
+	cuts          []mcut
+	nwrites       int
 	eitherNoCutAt int // write index at which the model decided "no cut" on an either decision (-1 none)
 	// every unit accepted after the drop rules, in write order (fMP4: includes the look-ahead unit)
 	accepted [][]*munit
@@ -167,6 +167,9 @@ func (m *emodel) write(u wunit, data [][]byte) {
 		step := int64(1024) // MPEG-4 audio: 1024 samples per access unit, ClockRate == sample rate
 		if t.Kind == "opus" {
 			step = 960 // 20 ms packets at 48 kHz
+			if m.cfg.OpusTicks != 0 {
+				step = int64(m.cfg.OpusTicks)
+			}
 		}
 		unit := &munit{w: u, k: k, dts: u.DTS + int64(k)*step, ra: true, data: [][]byte{data[k]}}
 		m.accept(u.Track, unit, false)
